@@ -10,24 +10,38 @@ Anything not listed below raises `Unsupported(file:line ...)`; nothing is guesse
 the emitter below and Model/PyRt3.v (+ the few combinators reused from Model/PyRt.v) are the trusted part.
 
 CLOSED IDIOM TABLE
- skipped                docstrings; annotations (`x: T = e` is `x = e`); `warnings.warn(<text>, stacklevel=k)`
-                        (the text: constants and f-strings over local names)
- parameters (by annotation)   int, Node -> Z;  bool -> bool;  list[int] -> list Z;  int | None -> option Z;
-                        unannotated `node` -> Z;  `action: UpdateTrackIDs` -> its five fields (start_node,
-                        old_tracklet_id, new_tracklet_id : Z; old_lineage_id, new_lineage_id : option Z);
-                        `action: AddNode` / `DeleteNode` -> node : Z, attributes : attrs
- -- objects (T = `self` in SolutionTracks / Tracks, or `self.tracks` in TrackAnnotator;  A = `self` in
-    TrackAnnotator, or `T.track_annotator`;  a local name bound to one of them is an alias)
+ skipped                docstrings; annotations (`x: T = e` is `x = e`; `self.tracks: SolutionTracks`);
+                        `warnings.warn(<text>, stacklevel=k)`  (texts: constants and f-strings over local names / fields of self)
+ parameters (by annotation)   int, Node -> Z;  bool -> bool;  list[int] -> list Z;  int | None -> option Z;  Edge -> Z * Z;
+                        SegMask -> pixels;  SegMask | None -> option pixels;  dict[str, Any] -> attrs;  dict[str, Any] | None -> option attrs;
+                        BasicAction -> basic;  unannotated `node` -> Z;  `action: <Class>` -> the fields of that class (ACTION_FIELDS);
+                        defaults (constructors only): None, True, False
+ -- objects (T = `self` in SolutionTracks / Tracks, `self.tracks` in TrackAnnotator and in the action classes, the `tracks`
+    parameter of a constructor;  A = `self` in TrackAnnotator, or `T.track_annotator`;  a local name bound to one is an alias)
  T.graph.has_node(x)  T.graph.successors(x)             has_node s x     successors s x  (a missing x has no successors:
                                                         NetworkXError NOT modelled, the hand model's convention)
+ T.graph.has_edge(*e)                                   has_edge s (fst e) (snd e)
  T.get_time(x)  T.get_times(l)                          time_of s x      map (fun n => time_of s n) l   (a missing node
                                                         reads time 0: KeyError NOT modelled, the hand model's convention)
+ T.get_pixels(x)                                        get_pixels s x   (Model/Edit.v; total, same convention)
  T.features.tracklet_key | lineage_key | time_key       KTrack | KLin | KTime;   A.tracklet_key | A.lineage_key   KTrack | KLin
+ T.features.node_features | edge_features               reg_node (ft s) | reg_edge (ft s)   (iterated: the keys)
+ pk = T.features.position_key;  isinstance(pk, list)    pos_is_list s;   for k in pk -> pos_keys (ft s);   pk [not] in d -> haskey (pos_single s) d
  <key> is None                                          key_is_none K  (= false: feature keys are always set)
  <key> in A.features / not in                           trk_act (ft s) | lin_act (ft s)  for KTrack | KLin   (/ negb ..)
- T.get_node_attr(n, K, required=True)                   do z, s <- py_node_attr_req_z s n K     (KeyError; ids read as integers)
- T.get_node_attr(n, K)                                  do o, s <- py_node_attr_get_z s n K     (KeyError for a missing node)
- T._set_node_attr(n, K, v)                              do _u, s <- py_set_node_attr s n K (VZ v | val_of_optz v)   (KeyError)
+ set(T.annotators.all_features.keys())                  annot_all_features s  (a set: only `.add(k)` and `k in ..` are admitted)
+ T.get_node_attr(n, K, required=True)  K an id key      do z, s <- py_node_attr_req_z s n K     (KeyError; ids read as integers)
+ T.get_node_attr(n, K)                 K an id key      do o, s <- py_node_attr_get_z s n K     (KeyError for a missing node)
+ T.get_node_attr(n, k)                 k a variable     do o, s <- py_node_attr_get s n k       (an optional value; explicit None = None)
+ T.get_edge_attr(e, k)                                  do o, s <- py_edge_attr_get s e k       (KeyError for a missing edge)
+ T._set_node_attr(n, k, v)                              do _u, s <- py_set_node_attr s n k (VZ v | val_of_optz v | v | val_of_opt v)   (KeyError)
+ T.graph.nodes[n].pop(k, None)                          do _u, s <- py_pop_node_attr s n k      (KeyError for a missing node)
+ T.set_pixels(px, v)                                    do _u, s <- set_pixels s px v           (Model/Edit.v: ValueError / IndexError)
+ T.graph.add_node(n) | add_edge(u, v, **d)              s := nx_add_node s n | nx_add_edge s u v d
+ T.graph.remove_node(n) | remove_edge(*e)               do _u, s <- nx_remove_node s n | nx_remove_edge s (fst e) (snd e)   (NetworkXError)
+ T.notify_annotators(self)  (self an action)            do _u, s <- py_regionprops_update s b; do _u, s <- py_edge_update s b;
+                                                        do _u, s <- gen_track_annotator_update fuel s b     (b = the `basic` value of self's
+                                                        fields; registry order Regionprops, Edge, Track; the first two are hand models)
  T.node_id_counter                                      nctr s ;  assignment / += :  upd_nctr s ..
  A.max_tracklet_id | A.max_lineage_id                   max_trk (bk s) | max_lin (bk s) ;  assignment: set_max_trk | set_max_lin
  A.tracklet_id_to_nodes | A.lineage_id_to_nodes  (= D)  trk_book (bk s) | lin_book (bk s);   a @property of T whose body is
@@ -42,31 +56,44 @@ CLOSED IDIOM TABLE
                                                         such a name is live makes its next use Unsupported
  T.action_history.undo() | .redo()                      do b, s <- hist_undo s | hist_redo s     (PyRt3)
  T.refresh.emit()                                       s := emit s None
- action.<field>  (action a parameter, see above)        the field;  action.attributes.get(K) -> py_attrs_get_z a K  (an option)
+ action.<field>  (action a parameter)                   the field;  action.attributes.get(K) -> py_attrs_get_z a K  (an option)
+ isinstance(action, <Class>)  (action : BasicAction)    match action with <Ctor> fields => .. | _ => .. end   (statement conditions)
+ self.<field>  (inside an action class)                 the field (a parameter of _apply / inverse; in __init__ bound by `self.<field> = e`)
+ super().__init__(tracks)  (first statement)            self.tracks := tracks
+ self._apply()  (end of __init__)                       do _r, s <- gen_<Class>_apply [fuel] s <fields>;  __init__ then yields the `basic` value
+ <Class>(T, args, kw=..)  (an action constructor)       do r, s <- gen_<Class>_init [fuel] s args      (defaults filled in; keywords in parameter order)
  self.m(args) / T.m(args) / A.m(args), m in FUNCS       do x, s <- gen_m [fuel] s args   (list arguments must be locals that
                                                         are not names of a D[k] object)
  -- expressions
  ints, + -, == != < <= > >=                             Z, + -, =? negb(=?) <? <=? >? >=?
  a == b with a or b possibly None                       opt_eqb a b
  True False None;  not c;  c1 and c2, c1 or c2          true false None;  negb c;  && || (expression position: operands cannot raise)
- x is None / x is not None  (expression position)       negb (py_is_some x) / py_is_some x
+ x is None / x is not None  (expression position)       negb (py_is_some x) / py_is_some x;  for an attribute value: py_value_is_none v
+ a if c else b;  x if x is not None else b              if c then a else b;  match x with Some x => .. | None => b end
  len(l);  x in l / x not in l  (l a list)               Z.of_nat (length l);  memz x l / negb ..
- [];  [e1, .., en];  [e for i in l];  range(n)          [];  [e1; ..];  map (fun i => e) l;  py_range n
+ k in d / k not in d  (d a dict)                        haskey k d / negb ..
+ all(k in d for k in l)                                 forallb (fun k => haskey k d) l
+ e[0] e[1]  (e an edge)                                 fst e, snd e
+ [];  [e1, .., en];  {};  [e for i in l];  range(n)     [];  [e1; ..];  [];  map (fun i => e) l;  py_range n
+ {k: <read that may raise> for k in d}                  py_for (keys d) [] s (fun k acc s => do o, s <- <read>; Ok (set k .. acc) s)
  sorted(l, key=lambda n: e)                             py_sorted_by (fun n => e) l
  -- statements
  x = e;  x += e                                         let x := e in ..   (a raising sub-expression is bound first, in evaluation
                                                         order; a call that may change the state must be the last thing evaluated)
- x = y  (both local lists)                              allowed; afterwards in-place changes of either are Unsupported while both are live
+ x = y  (both local lists / dicts)                      allowed; afterwards in-place changes of either are Unsupported while both are live
  l.append(x) l.extend(m) l.remove(x) l.sort(key=f)      l := l ++ [x] | l ++ m | py_list_remove (ValueError) | py_sorted_by f l     (local lists)
  l[i] = v  (local list)                                 do l, s <- py_list_setitem l i v s       (IndexError)
+ self.<field>[k] = v  (a dict field)                    field := set k v field
+ st.add(k)  (a local set)                               st := st ++ [k]
  if / elif / else                                       if .. then .. else ..; as a statement condition also: `not`, short-circuit
                                                         `and` / `or` (later operands may raise), `x is [not] None` and truthiness of a
-                                                        list / optional list (a match that narrows x), isinstance(action, <Class>);
+                                                        list / optional list (a match that narrows x), isinstance (above);
                                                         variables assigned inside and visible afterwards are returned through the monad
  for x in l: body  [with break]                         py_for l <carried> s (fun x <carried> s => body)  |  py_for_brk .. (CNext | CBreak)
+                                                        l: a list, an edge ([fst e; snd e]), a dict (its keys);  for k, v in d.items()
  for i, x in enumerate(l): body                         the same over py_enumerate l; `l[i] = e` in the body is the one allowed change of l
  while c: body                                          py_while fuel <carried> s (fun .. => c) (fun .. => body)   (EFuel when the fuel runs
-                                                        out; the generated function takes `fuel : nat` as its first parameter)
+                                                        out; a generated function that reaches a loop takes `fuel : nat` as its first parameter)
  return e;  return a, b;  return                        Ok e s;  Ok (a, b) s;  Ok tt s   (not inside a loop, not inside a conditional that
                                                         also falls through)
  raise ValueError(msg)                                  Err EValue s
@@ -89,6 +116,11 @@ OUT = "/verif/coq/Gen/Core_gen.v"
 ST = "data_model/solution_tracks.py"
 TR = "data_model/tracks.py"
 TA = "annotators/_track_annotator.py"
+AU = "actions/update_track_id.py"
+AN = "actions/add_delete_node.py"
+AE = "actions/add_delete_edge.py"
+AA = "actions/update_node_attrs.py"
+AS = "actions/update_segmentation.py"
 # (source file, class, method, generated name); translated in this order (callees first)
 FUNCS = [
     (ST, "SolutionTracks", "get_next_track_id", "gen_get_next_track_id"),
@@ -109,22 +141,56 @@ FUNCS = [
     (TA, "TrackAnnotator", "_handle_add_node", "gen_handle_add_node"),
     (TA, "TrackAnnotator", "_handle_delete_node", "gen_handle_delete_node"),
     (TA, "TrackAnnotator", "_handle_update_track_ids", "gen_handle_update_track_ids"),
+    (TA, "TrackAnnotator", "update", "gen_track_annotator_update"),
+    (AU, "UpdateTrackIDs", "_apply", "gen_UpdateTrackIDs_apply"),
+    (AU, "UpdateTrackIDs", "__init__", "gen_UpdateTrackIDs_init"),       # gen_<Class>_init / _apply / _inverse: fixed naming
+    (AU, "UpdateTrackIDs", "inverse", "gen_UpdateTrackIDs_inverse"),
+    (AS, "UpdateNodeSeg", "_apply", "gen_UpdateNodeSeg_apply"),
+    (AS, "UpdateNodeSeg", "__init__", "gen_UpdateNodeSeg_init"),
+    (AS, "UpdateNodeSeg", "inverse", "gen_UpdateNodeSeg_inverse"),
+    (AE, "AddEdge", "_apply", "gen_AddEdge_apply"),
+    (AE, "AddEdge", "__init__", "gen_AddEdge_init"),
+    (AE, "DeleteEdge", "_apply", "gen_DeleteEdge_apply"),
+    (AE, "DeleteEdge", "__init__", "gen_DeleteEdge_init"),
+    (AE, "AddEdge", "inverse", "gen_AddEdge_inverse"),
+    (AE, "DeleteEdge", "inverse", "gen_DeleteEdge_inverse"),
+    (AN, "AddNode", "_apply", "gen_AddNode_apply"),
+    (AN, "AddNode", "__init__", "gen_AddNode_init"),
+    (AN, "DeleteNode", "_apply", "gen_DeleteNode_apply"),
+    (AN, "DeleteNode", "__init__", "gen_DeleteNode_init"),
+    (AN, "AddNode", "inverse", "gen_AddNode_inverse"),
+    (AN, "DeleteNode", "inverse", "gen_DeleteNode_inverse"),
+    (AA, "UpdateNodeAttrs", "_apply", "gen_UpdateNodeAttrs_apply"),
+    (AA, "UpdateNodeAttrs", "__init__", "gen_UpdateNodeAttrs_init"),
+    (AA, "UpdateNodeAttrs", "inverse", "gen_UpdateNodeAttrs_inverse"),
 ]
-KIND = {"SolutionTracks": "TRACKS", "Tracks": "TRACKS", "TrackAnnotator": "ANNOT"}
+KIND = {"SolutionTracks": "TRACKS", "Tracks": "TRACKS", "TrackAnnotator": "ANNOT", "UpdateTrackIDs": "ACT", "AddNode": "ACT", "DeleteNode": "ACT",
+        "AddEdge": "ACT", "DeleteEdge": "ACT", "UpdateNodeAttrs": "ACT", "UpdateNodeSeg": "ACT"}
 # classes a TRACKS receiver resolves methods / properties in, most derived first
 TRACKS_CLASSES = [(ST, "SolutionTracks"), (TR, "Tracks")]
 
-ANNOT_TY = {"int": "Z", "Node": "Z", "bool": "bool", "list[int]": "listZ", "int | None": "optZ", None: None}
+ANNOT_TY = {"int": "Z", "Node": "Z", "bool": "bool", "list[int]": "listZ", "int | None": "optZ", "BasicAction": "basic",
+            "SegMask | None": "optpx", "SegMask": "px", "dict[str, Any]": "attrs", "dict[str, Any] | None": "optattrs",
+            "Tracks": "TRACKS", "SolutionTracks": "TRACKS", "Edge": "pairZZ", None: None}
 UNANNOTATED = {"node": "Z"}
+# action class -> (constructor of Model/Edit.v `basic`, its fields in constructor order; an `edge` field is two integers)
 ACTION_FIELDS = {
     "UpdateTrackIDs": [("start_node", "Z"), ("old_tracklet_id", "Z"), ("new_tracklet_id", "Z"),
                        ("old_lineage_id", "optZ"), ("new_lineage_id", "optZ")],
-    "AddNode": [("node", "Z"), ("attributes", "attrs")],
-    "DeleteNode": [("node", "Z"), ("attributes", "attrs")],
+    "AddNode": [("node", "Z"), ("attributes", "attrs"), ("pixels", "optpx")],
+    "DeleteNode": [("node", "Z"), ("attributes", "attrs"), ("pixels", "optpx")],
+    "AddEdge": [("edge", "pairZZ"), ("attributes", "attrs")],
+    "DeleteEdge": [("edge", "pairZZ"), ("attributes", "attrs")],
+    "UpdateNodeAttrs": [("node", "Z"), ("prev_attrs", "attrs"), ("new_attrs", "attrs")],
+    "UpdateNodeSeg": [("node", "Z"), ("pixels", "px"), ("added", "bool")],
 }
+ACTION_CTOR = {"UpdateTrackIDs": "BUpdTrack", "AddNode": "BAddNode", "DeleteNode": "BDelNode", "AddEdge": "BAddEdge", "DeleteEdge": "BDelEdge",
+               "UpdateNodeAttrs": "BUpdAttrs", "UpdateNodeSeg": "BUpdSeg"}
 COQTY = {"Z": "Z", "bool": "bool", "optZ": "option Z", "listZ": "list Z", "optlistZ": "option (list Z)", "attrs": "attrs",
-         "unit": "unit", "pairOO": "(option Z * option Z)", "pairZZ": "(Z * Z)", "listZZ": "list (Z * Z)"}
-ELEM = {"listZ": "Z", "listZZ": "pairZZ"}
+         "unit": "unit", "pairOO": "(option Z * option Z)", "pairZZ": "(Z * Z)", "listZZ": "list (Z * Z)",
+         "basic": "basic", "optpx": "option pixels", "px": "pixels", "optattrs": "option attrs",
+         "value": "value", "optvalue": "option value", "setZ": "list Z", "listKV": "list (Z * value)", "pairKV": "(Z * value)"}
+ELEM = {"listZ": "Z", "listZZ": "pairZZ", "listKV": "pairKV"}
 BOOKS = {"trk": ("(trk_book (bk s))", "set_trk_book s %s"), "lin": ("(lin_book (bk s))", "set_lin_book s %s")}
 FIELDS = {"nctr": ("(nctr s)", "upd_nctr s %s"), "max_trk": ("(max_trk (bk s))", "set_max_trk s %s"),
           "max_lin": ("(max_lin (bk s))", "set_max_lin s %s")}
@@ -136,7 +202,10 @@ ATTR = {
     ("ANNOT", "tracklet_id_to_nodes"): ("BOOK", "trk"), ("ANNOT", "lineage_id_to_nodes"): ("BOOK", "lin"),
     ("ANNOT", "max_tracklet_id"): ("FIELD", "max_trk"), ("ANNOT", "max_lineage_id"): ("FIELD", "max_lin"),
     ("FEATURES", "tracklet_key"): ("key", "KTrack"), ("FEATURES", "lineage_key"): ("key", "KLin"), ("FEATURES", "time_key"): ("key", "KTime"),
+    ("FEATURES", "position_key"): ("POSKEY", None), ("TRACKS", "annotators"): ("REGISTRY", None), ("REGISTRY", "all_features"): ("ALLFEATS", None),
+    ("GRAPH", "nodes"): ("NODEVIEW", None),
 }
+FEATURE_LISTS = {"node_features": "(reg_node (ft s))", "edge_features": "(reg_edge (ft s))"}
 ACTIVE = {"KTrack": "(trk_act (ft s))", "KLin": "(lin_act (ft s))"}
 
 CUR = {"file": "?", "n": 0, "fuel": False, "self": None, "trees": {}, "sigs": {}, "repo": REPO}
@@ -152,7 +221,14 @@ def fresh(prefix):
 
 
 def cname(x):
-    return "v_" + x
+    return "v_" + x.replace(".", "_")
+
+
+def var_key(n):
+    """the environment key of a local name or of a field of self"""
+    if isinstance(n, ast.Name): return n.id
+    if isinstance(n, ast.Attribute) and isinstance(n.value, ast.Name) and n.value.id == "self": return "self." + n.attr
+    return None
 
 
 def ind(txt):
@@ -197,6 +273,11 @@ def unify(node, t1, t2):
         if a in ("Z", "none") and b == "optZ": return "optZ"
         if a == "none" and b == "Z": return "optZ"
         if a == "nil" and b in ELEM: return b
+        if a in ("px", "none") and b == "optpx": return "optpx"
+        if a == "none" and b == "px": return "optpx"
+        if a in ("value", "none") and b == "optvalue": return "optvalue"
+        if a == "emptydict" and b == "attrs": return "attrs"
+        if a == "key" and b == "Z": return "Z"
         if a == "none" and b == "unit": return "unit"
         if a == "pairNN" and b == "pairOO": return "pairOO"
     fail(node, "one variable (or the result) gets the types %s and %s" % (t1, t2))
@@ -208,12 +289,63 @@ def coerce(node, v, ty):
     if ty == "optZ" and v.ty == "none": return "None"
     if ty in ELEM and v.ty == "nil": return "[]"
     if ty == "unit" and v.ty == "none": return "tt"
+    if ty == "optpx" and v.ty == "px": return "(Some %s)" % v.coq
+    if ty in ("optpx", "optattrs") and v.ty == "none": return "None"
+    if ty == "optattrs" and v.ty == "attrs": return "(Some %s)" % v.coq
+    if ty == "attrs" and v.ty == "emptydict": return "[]"
+    if ty == "Z" and v.ty == "key": return v.coq
+    if ty == "optvalue" and v.ty == "value": return "(Some %s)" % v.coq
+    if ty == "optvalue" and v.ty == "none": return "None"
     if ty == "pairOO" and v.ty == "pairNN": return v.coq
     fail(node, "expected %s, got %s" % (ty, v.ty))
 
 
 def is_none(n):
     return isinstance(n, ast.Constant) and n.value is None
+
+
+def action_fields(node, v, env):
+    """the Coq texts of the fields of an action value (a narrowed `action` parameter, or `self` inside an action class)"""
+    out = []
+    for f, ty in ACTION_FIELDS[v.arg]:
+        if v.ty == "ACTION": out.append("%s_%s" % (v.coq, f))
+        else:
+            fv = env.v.get("self." + f)
+            if fv is None: fail(node, "field %s is not set yet" % f)
+            out.append(coerce(node, fv, ty))
+    return out
+
+
+def action_value(node, v, env):
+    parts = []
+    for (f, ty), x in zip(ACTION_FIELDS[v.arg], action_fields(node, v, env)):
+        parts.append("(fst %s) (snd %s)" % (x, x) if ty == "pairZZ" else x)
+    return "(%s %s)" % (ACTION_CTOR[v.arg], " ".join(parts))
+
+
+def bind_args(n, args, kws, params, env, sub):
+    """the arguments of a Python call against the callee's parameters [(name, type, default text)] -> Coq texts"""
+    kw = [(k.arg, k.value) for k in kws]
+    if any(k is None for k, _ in kw): fail(n, "keywords")
+    names = [pn for pn, _, _ in params]
+    order = [names.index(k) for k, _ in kw if k in names]
+    if len(order) != len(kw) or order != sorted(order) or len(set(order)) != len(order) or (order and order[0] < len(args)): fail(n, "keyword arguments")
+    if len(args) > len(params): fail(n, "too many arguments")
+    kwd = dict(kw)
+    texts = []
+    for i, (pn, pty, dflt) in enumerate(params):
+        a = args[i] if i < len(args) else kwd.get(pn)
+        if a is None:
+            if dflt is None: fail(n, "missing argument %s" % pn)
+            texts.append(dflt); continue
+        v = sub(a)
+        if pty.startswith("ACTION:"):
+            if v.ty not in ("ACTION", "SELFACT") or v.arg != pty[7:]: fail(a, "expected an action of class %s" % pty[7:])
+            texts += action_fields(a, v, env)
+            continue
+        if pty in ELEM and (v.place or (isinstance(a, ast.Name) and env.aliased(a.id))): fail(a, "a shared list passed to a method")
+        texts.append(coerce(a, v, pty))
+    return texts
 
 
 def is_docstring(s):
@@ -300,6 +432,10 @@ def ex(n, env, pre, top=False):
         fail(n, "unknown (or possibly unbound) variable")
     if isinstance(n, ast.Attribute):
         b = sub(n.value)
+        if b.ty == "SELFACT":
+            fv = env.v.get("self." + n.attr)
+            if fv is None: fail(n, "field %s is not set (yet)" % n.attr)
+            return fv
         if b.ty == "ACTION":
             for f, ty in ACTION_FIELDS[b.arg]:
                 if f == n.attr: return V("%s_%s" % (b.coq, f), ty)
@@ -311,8 +447,45 @@ def ex(n, env, pre, top=False):
             if ty == "FIELD": return V(FIELDS[arg][0], "Z", arg=arg)
             if ty == "BOOK": return V(BOOKS[arg][0], "BOOK", arg=arg)
             return V("", ty)
+        if b.ty == "FEATURES" and n.attr in FEATURE_LISTS: return V(FEATURE_LISTS[n.attr], "listZ")
         if b.ty == "TRACKS": return property_value(n.attr, n)
         fail(n, "attribute")
+    if isinstance(n, ast.Dict):
+        if not n.keys: return V("[]", "emptydict")
+        fail(n, "dict display")
+    if isinstance(n, ast.IfExp):
+        # a if c else b ;   x if x is not None else b  (x a local: narrowed in its branch)
+        tst = n.test
+        if none_test(tst) and var_key(tst.left) in env.v:
+            x = var_key(tst.left); xv = ex(tst.left, env, None)
+            nty = {"optZ": "Z", "optpx": "px", "optattrs": "attrs", "optvalue": "value"}.get(xv.ty)
+            if nty is None: fail(n, "conditional expression on a %s" % xv.ty)
+            e1 = env.copy(); e1.v[x] = V(cname(x), nty)
+            some_n, none_n = (n.body, n.orelse) if isinstance(tst.ops[0], ast.IsNot) else (n.orelse, n.body)
+            a = ex(some_n, e1, None); b = ex(none_n, env, None)
+            ty = unify(n, a.ty, b.ty)
+            if ty not in COQTY: fail(n, "conditional expression of type %s" % ty)
+            return V("(match %s with Some %s => %s | None => %s end)" % (xv.coq, cname(x), coerce(n, a, ty), coerce(n, b, ty)), ty)
+        c = sub(tst)
+        if c.ty != "bool": fail(n, "conditional expression")
+        a = ex(n.body, env, None); b = ex(n.orelse, env, None)
+        ty = unify(n, a.ty, b.ty)
+        if ty not in COQTY: fail(n, "conditional expression of type %s" % ty)
+        return V("(if %s then %s else %s)" % (c.coq, coerce(n, a, ty), coerce(n, b, ty)), ty)
+    if isinstance(n, ast.DictComp) and len(n.generators) == 1:
+        # {k: <T.get_node_attr(n, k)> for k in d}     built entry by entry; the value may raise
+        g = n.generators[0]
+        if g.is_async or g.ifs or not isinstance(g.target, ast.Name) or not isinstance(n.key, ast.Name) or n.key.id != g.target.id: fail(n, "dict comprehension")
+        it = sub(g.iter)
+        if it.ty == "attrs": it = V("(keys %s)" % it.coq, "listZ")
+        if it.ty != "listZ": fail(n, "dict comprehension over %s" % it.ty)
+        e2 = env.copy(); e2.v[g.target.id] = V(cname(g.target.id), "Z")
+        ipre = []
+        val = ex(n.value, e2, ipre)
+        if val.ty not in ("value", "optvalue") or any(e for (_, _, e) in ipre): fail(n, "dict comprehension value")
+        vtxt = val.coq if val.ty == "value" else "(val_of_opt %s)" % val.coq
+        acc = fresh("d")
+        return hoist("py_for %s (@nil (Z * value)) s (fun %s %s s =>\n%s)" % (it.coq, cname(g.target.id), acc, ind(binds(ipre) + "Ok (set %s %s %s) s" % (cname(g.target.id), vtxt, acc))), "attrs", "d")
     if isinstance(n, ast.List):
         if not n.elts: return V("[]", "nil")
         return V("[%s]" % "; ".join(Zof(e) for e in n.elts), "listZ")
@@ -321,6 +494,9 @@ def ex(n, env, pre, top=False):
         if b.ty == "BOOK":
             k = Zof(n.slice)
             return hoist("py_getitem %s %s s" % (b.coq, k), "listZ", "l", place=(b.arg, k))
+        if b.ty == "pairZZ" and isinstance(n.slice, ast.Constant) and n.slice.value in (0, 1) and type(n.slice.value) is int:
+            return V("(%s %s)" % ("fst" if n.slice.value == 0 else "snd", b.coq), "Z")
+        if b.ty == "NODEVIEW": return V(Zof(n.slice), "NODEDICT")
         fail(n, "subscript")
     if isinstance(n, ast.BinOp) and isinstance(n.op, (ast.Add, ast.Sub)):
         l = Zof(n.left); r = Zof(n.right)
@@ -338,6 +514,9 @@ def ex(n, env, pre, top=False):
         if isinstance(op, (ast.In, ast.NotIn)):
             a = sub(l); d = sub(r)
             if d.ty == "BOOK" and a.ty == "Z": t = "(haskey %s %s)" % (a.coq, d.coq)
+            elif d.ty == "attrs" and a.ty in ("key", "Z"): t = "(haskey %s %s)" % (a.coq, d.coq)
+            elif d.ty == "attrs" and a.ty == "POSKEY": t = "(haskey (pos_single s) %s)" % d.coq
+            elif d.ty == "setZ" and a.ty in ("key", "Z"): t = "(memz %s %s)" % (a.coq, d.coq)
             elif d.ty == "AFEATS" and a.ty == "key" and a.coq in ACTIVE: t = ACTIVE[a.coq]
             elif d.ty == "listZ" and a.ty == "Z": t = "(memz %s %s)" % (a.coq, d.coq)
             else: fail(n, "membership test")
@@ -346,6 +525,8 @@ def ex(n, env, pre, top=False):
             if not is_none(r): fail(n, "is")
             v = sub(l)
             if v.ty == "key": isn, isnt = "(key_is_none %s)" % v.coq, "(negb (key_is_none %s))" % v.coq
+            elif v.ty == "value": isn, isnt = "(py_value_is_none %s)" % v.coq, "(negb (py_value_is_none %s))" % v.coq
+            elif v.ty in ("optpx", "optattrs", "optvalue"): isn, isnt = "(negb (py_is_some %s))" % v.coq, "(py_is_some %s)" % v.coq
             elif v.ty == "optZ": isn, isnt = "(negb (py_is_some %s))" % v.coq, "(py_is_some %s)" % v.coq
             elif v.ty == "Z": isn, isnt = "false", "true"
             elif v.ty == "none": isn, isnt = "true", "false"
@@ -392,6 +573,14 @@ def sort_key(c, env):
 
 def call(n, env, pre, hoist, sub, Zof):
     f, args, kws = n.func, n.args, n.keywords
+    if isinstance(f, ast.Name) and f.id in ACTION_FIELDS:       # an action constructor: applies the action
+        sig = CUR["sigs"].get("gen_%s_init" % f.id)
+        if sig is None: fail(n, "constructor of a class that is not translated (yet)")
+        params, rty, fuel, gen = sig
+        if not args or sub(args[0]).ty != "TRACKS": fail(n, "first argument must be the tracks")
+        texts = bind_args(n, args[1:], kws, params, env, sub)
+        if fuel: CUR["fuel"] = True
+        return hoist("%s%s s%s" % (gen, " fuel" if fuel else "", "".join(" " + x for x in texts)), rty, "r", effect=True)
     if isinstance(f, ast.Name):
         if f.id == "sorted" and len(args) == 1:
             v = sub(args[0])
@@ -403,6 +592,21 @@ def call(n, env, pre, hoist, sub, Zof):
             if v.ty in ELEM: return V("(Z.of_nat (length %s))" % v.coq, "Z")
             fail(n, "len of %s" % v.ty)
         if f.id == "range" and len(args) == 1: return V("(py_range %s)" % Zof(args[0]), "listZ")
+        if f.id == "isinstance" and len(args) == 2 and isinstance(args[1], ast.Name) and args[1].id == "list" and sub(args[0]).ty == "POSKEY":
+            return V("(pos_is_list s)", "bool")
+        if f.id == "set" and len(args) == 1 and ast.unparse(args[0]).endswith(".keys()"):
+            inner = args[0]
+            if isinstance(inner, ast.Call) and not inner.args and not inner.keywords and sub(inner.func.value).ty == "ALLFEATS":
+                return V("(annot_all_features s)", "setZ")
+        if f.id == "all" and len(args) == 1 and isinstance(args[0], ast.GeneratorExp) and len(args[0].generators) == 1:
+            ge, g = args[0], args[0].generators[0]
+            if not g.ifs and not g.is_async and isinstance(g.target, ast.Name):
+                it = sub(g.iter)
+                if it.ty == "POSKEY": it = V("(pos_keys (ft s))", "listZ")
+                e2 = env.copy(); e2.v[g.target.id] = V(cname(g.target.id), "Z")
+                c = ex(ge.elt, e2, None)
+                if it.ty == "listZ" and c.ty == "bool": return V("(forallb (fun %s => %s) %s)" % (cname(g.target.id), c.coq, it.coq), "bool")
+            fail(n, "all(...)")
         fail(n, "call of %s" % f.id)
     if not isinstance(f, ast.Attribute): fail(n, "call")
     recv = sub(f.value)
@@ -412,6 +616,10 @@ def call(n, env, pre, hoist, sub, Zof):
     if recv.ty == "GRAPH" and not kw and len(args) == 1:
         if m == "has_node": return V("(has_node s %s)" % Zof(args[0]), "bool")
         if m == "successors": return V("(successors s %s)" % Zof(args[0]), "listZ")
+        if m == "has_edge" and isinstance(args[0], ast.Starred):
+            e = sub(args[0].value)
+            if e.ty == "pairZZ": return V("(has_edge s (fst %s) (snd %s))" % (e.coq, e.coq), "bool")
+    if recv.ty == "attrs" and m == "items" and not kw and not args: return V(recv.coq, "listKV")
     if recv.ty == "BOOK" and m == "get" and not kw and len(args) == 1:
         return V("(lookup %s %s)" % (Zof(args[0]), recv.coq), "optlistZ")
     if recv.ty == "attrs" and m == "get" and not kw and len(args) == 1:
@@ -419,24 +627,31 @@ def call(n, env, pre, hoist, sub, Zof):
         if k.ty == "key": return V("(py_attrs_get_z %s %s)" % (recv.coq, k.coq), "optZ")
     if recv.ty == "HISTORY" and m in ("undo", "redo") and not kw and not args:
         return hoist("hist_%s s" % m, "bool", "b", effect=True)
+    if recv.ty == "SELFACT":
+        sig = CUR["sigs"].get("gen_%s_%s" % (recv.arg, m.lstrip("_")))
+        if sig is None or m not in ("_apply", "inverse") or args or kws: fail(n, "method of an action class")
+        params, rty, fuel, gen = sig
+        if fuel: CUR["fuel"] = True
+        return hoist("%s%s s%s" % (gen, " fuel" if fuel else "", "".join(" " + x for x in action_fields(n, recv, env))), rty, "r", effect=True)
     if recv.ty in ("TRACKS", "ANNOT"):
         sig = resolve_call(recv.ty, m)
         if sig == "later": fail(n, "call of a method that is translated later (or recursion)")
         if sig is not None:
             params, rty, fuel, gen = sig
-            if kw or len(args) != len(params): fail(n, "arguments of %s" % m)
-            texts = []
-            for a, (pn, pty) in zip(args, params):
-                v = sub(a)
-                if pty in ELEM and (v.place or (isinstance(a, ast.Name) and env.aliased(a.id))): fail(a, "a shared list passed to a method")
-                texts.append(coerce(a, v, pty))
+            texts = bind_args(n, args, kws, params, env, sub)
             if fuel: CUR["fuel"] = True
-            return hoist("%s%s s%s" % (gen, " fuel" if fuel else "", "".join(" " + t for t in texts)), rty, "r", effect=True)
+            return hoist("%s%s s%s" % (gen, " fuel" if fuel else "", "".join(" " + x for x in texts)), rty, "r", effect=True)
     if recv.ty == "TRACKS":
         if m == "get_time" and not kw and len(args) == 1: return V("(time_of s %s)" % Zof(args[0]), "Z")
         if m == "get_times" and not kw and len(args) == 1:
             v = sub(args[0])
             if v.ty == "listZ": return V("(map (fun n => time_of s n) %s)" % v.coq, "listZ")
+        if m == "get_pixels" and not kw and len(args) == 1: return V("(get_pixels s %s)" % Zof(args[0]), "optpx")
+        if m == "get_edge_attr" and not kw and len(args) == 2:
+            e = sub(args[0]); k = sub(args[1])
+            if e.ty == "pairZZ" and k.ty in ("key", "Z"): return hoist("py_edge_attr_get s %s %s" % (e.coq, k.coq), "optvalue")
+        if m == "get_node_attr" and len(args) == 2 and not kw and sub(args[1]).ty == "Z":      # an arbitrary key
+            return hoist("py_node_attr_get s %s %s" % (Zof(args[0]), sub(args[1]).coq), "optvalue")
         if m == "get_node_attr" and len(args) == 2:
             nd = Zof(args[0]); k = sub(args[1])
             if k.ty != "key": fail(n, "attribute key")
@@ -469,12 +684,13 @@ def emit_if(t, env, kt, kf):
         nxt = rest[0] if len(rest) == 1 else ast.copy_location(ast.BoolOp(op=t.op, values=rest), t)
         if isinstance(t.op, ast.And): return emit_if(first, env, lambda e: emit_if(nxt, e, kt, kf), kf)
         return emit_if(first, env, kt, lambda e: emit_if(nxt, e, kt, kf))
-    if none_test(t) and isinstance(t.left, ast.Name):
-        x = t.left.id
+    if none_test(t) and var_key(t.left) in env.v:
+        x = var_key(t.left)
         v = ex(t.left, env, None)
         pos = isinstance(t.ops[0], ast.IsNot)
-        if v.ty == "optZ":
-            e1 = env.copy(); e1.v[x] = V(cname(x), "Z")
+        nty = {"optZ": "Z", "optpx": "px", "optattrs": "attrs", "optvalue": "value"}.get(v.ty)
+        if nty:
+            e1 = env.copy(); e1.v[x] = V(cname(x), nty)
             some, none = (kt(e1), kf(env.copy())) if pos else (kf(e1), kt(env.copy()))
             return "match %s with\n| Some %s =>\n%s\n| None =>\n%s\nend" % (v.coq, cname(x), ind(some), ind(none))
         if v.ty == "Z": return (kt if pos else kf)(env.copy())
@@ -486,7 +702,14 @@ def emit_if(t, env, kt, kf):
         pat = "(_ :: _) as %s" % cname(t.id)
         if v.ty == "optlistZ": pat = "Some (%s)" % pat
         return "match %s with\n| %s =>\n%s\n| _ =>\n%s\nend" % (v.coq, pat, ind(kt(e1)), ind(kf(env.copy())))
-    if isinstance(t, ast.Call) and isinstance(t.func, ast.Name) and t.func.id == "isinstance":
+    if isinstance(t, ast.Call) and isinstance(t.func, ast.Name) and t.func.id == "isinstance" and not (len(t.args) == 2 and isinstance(t.args[1], ast.Name) and t.args[1].id == "list"):
+        if len(t.args) == 2 and not t.keywords and isinstance(t.args[0], ast.Name) and isinstance(t.args[1], ast.Name) and t.args[1].id in ACTION_FIELDS:
+            x = t.args[0].id; cls = t.args[1].id
+            v = ex(t.args[0], env, None)
+            if v.ty == "basic":
+                e1 = env.copy(); e1.v[x] = V(v.coq, "ACTION", arg=cls)
+                pat = "%s %s" % (ACTION_CTOR[cls], " ".join("%s_%s" % (v.coq, f) for f, _ in ACTION_FIELDS[cls]))
+                return "match %s with\n| %s =>\n%s\n| _ =>\n%s\nend" % (v.coq, pat, ind(kt(e1)), ind(kf(env.copy())))
         fail(t, "isinstance")
     pre = []
     c = finish(t, ex(t, env, pre, top=True), pre)
@@ -507,7 +730,8 @@ def assigned(stmts):
     def target(t):
         if isinstance(t, ast.Name): add(t.id)
         elif isinstance(t, ast.Tuple): [target(e) for e in t.elts]
-        elif isinstance(t, ast.Subscript) and isinstance(t.value, ast.Name): add(t.value.id)
+        elif isinstance(t, ast.Subscript) and var_key(t.value): add(var_key(t.value))
+        elif isinstance(t, ast.Attribute) and var_key(t): add(var_key(t))
         elif isinstance(t, (ast.Attribute, ast.Subscript)): pass       # a field of the state
         else: fail(t, "assignment target")
 
@@ -522,7 +746,7 @@ def assigned(stmts):
             [add(x) for x in assigned(s.body)]
         elif isinstance(s, ast.Expr) and isinstance(s.value, ast.Call) and isinstance(s.value.func, ast.Attribute):
             c = s.value
-            if c.func.attr in ("append", "extend", "remove", "sort") and isinstance(c.func.value, ast.Name): add(c.func.value.id)
+            if c.func.attr in ("append", "extend", "remove", "sort", "add") and isinstance(c.func.value, ast.Name): add(c.func.value.id)
     return out
 
 
@@ -644,7 +868,7 @@ def message(n, env):
     if isinstance(n, ast.JoinedStr):
         for p in n.values:
             if isinstance(p, ast.Constant): continue
-            if isinstance(p, ast.FormattedValue) and p.format_spec is None and p.conversion == -1 and isinstance(p.value, ast.Name) and p.value.id in env.v: continue
+            if isinstance(p, ast.FormattedValue) and p.format_spec is None and p.conversion == -1 and var_key(p.value) in env.v: continue
             fail(n, "message")
         return
     fail(n, "message")
@@ -767,6 +991,12 @@ def block(stmts, env, k, ctx):
         if cur.arg in FIELDS:
             return binds(pre) + "let s := %s in\n" % (FIELDS[cur.arg][1] % ("(%s %s %s)" % (cur.coq, op, v.coq))) + go(env)
         fail(s, "augmented assignment")
+    if isinstance(s, ast.AnnAssign) and s.value is None and ast.unparse(s.target) == "self.tracks" and env.v["self"].ty == "SELFACT":
+        return go(env)                            # `self.tracks: SolutionTracks` (annotation only)
+    if isinstance(s, ast.Expr) and ast.unparse(s.value) == "super().__init__(tracks)" and env.v["self"].ty == "SELFACT":
+        if "tracks" not in env.v or env.v["tracks"].ty != "TRACKS": fail(s, "super().__init__")
+        e2 = env.copy(); e2.v["self.tracks"] = V("", "TRACKS")
+        return go(e2)
     if isinstance(s, ast.AnnAssign) and s.value is not None and s.simple == 1:
         return block([ast.copy_location(ast.Assign(targets=[s.target], value=s.value), s)] + rest, env, k, ctx)
     if isinstance(s, ast.Delete) and len(s.targets) == 1 and isinstance(s.targets[0], ast.Subscript):
@@ -778,6 +1008,25 @@ def block(stmts, env, k, ctx):
         return "do %s, s <- py_delitem %s %s s;\nlet s := %s in\n" % (d, b.coq, kk.coq, BOOKS[b.arg][1] % d) + go(e2)
     if isinstance(s, ast.Assign) and len(s.targets) == 1:
         t, val = s.targets[0], s.value
+        if isinstance(t, ast.Attribute) and isinstance(t.value, ast.Name) and t.value.id == "self" and env.v["self"].ty == "SELFACT":
+            cls = env.v["self"].arg
+            fty = dict(ACTION_FIELDS[cls]).get(t.attr)
+            if fty is None: fail(s, "assignment to an unknown field of %s" % cls)
+            pre = []
+            v = finish(s, ex(val, env, pre, top=True), pre)
+            unify(s, fty, v.ty)
+            x = "v_self_" + t.attr
+            e2 = env.copy(); e2.v["self." + t.attr] = V(x, fty)
+            e2.grp.pop("self." + t.attr, None)
+            if v.ty in ("attrs", "optattrs") and not isinstance(val, ast.Dict):      # the field shares the dict with another name (or the caller)
+                src = var_key(val) or fresh("caller")
+                gid = env.grp.get(src) or fresh("g")
+                e2.grp[src] = gid; e2.grp["self." + t.attr] = gid; e2.v.setdefault(src, V("", "CALLER"))
+            if any(e for (_, _, e) in pre): e2.kill_places()
+            if pre and pre[-1][0] == v.coq and v.ty == fty:
+                pre[-1] = (x, pre[-1][1], pre[-1][2])
+                return binds(pre) + go(e2)
+            return binds(pre) + "let %s := %s in\n" % (x, coerce(s, v, fty)) + go(e2)
         if isinstance(t, ast.Attribute):          # a field of the state
             pre = []
             tv = ex(t, env, None); v = finish(s, ex(val, env, pre, top=True), pre)
@@ -791,6 +1040,13 @@ def block(stmts, env, k, ctx):
                 if kk.ty != "Z" or pre or not (isinstance(val, ast.List) and not val.elts): fail(s, "assignment to a lookup entry (only the empty list display)")
                 e2 = env.copy(); e2.kill_places()
                 return write_place(env, (b.arg, kk.coq), "[]") + go(e2)
+            if b.ty in ("attrs", "emptydict") and var_key(t.value) and var_key(t.value).startswith("self."):       # self.f[k] = v
+                name = var_key(t.value)
+                if env.aliased(name): fail(s, "in-place change of a dict that has two names")
+                kk = ex(t.slice, env, pre); v = ex(val, env, pre)
+                if kk.ty not in ("key", "Z") or v.ty != "value" or any(e for (_, _, e) in pre): fail(s, "item assignment")
+                e2 = env.copy(); e2.v[name] = V(cname(name), "attrs")
+                return binds(pre) + "let %s := set %s %s %s in\n" % (cname(name), kk.coq, v.coq, coerce(s, b, "attrs")) + go(e2)
             if isinstance(t.value, ast.Name) and b.ty == "listZ" and not b.place:       # l[i] = v
                 name = t.value.id
                 local_list(s, name, env, True)
@@ -809,10 +1065,13 @@ def block(stmts, env, k, ctx):
             v = finish(s, ex(val, env, pre, top=True), pre)
             e2 = env.copy(); e2.grp.pop(x, None); e2.dead.discard(x)
             if any(e for (_, _, e) in pre): e2.kill_places()
-            if v.ty in ("TRACKS", "ANNOT", "GRAPH", "FEATURES", "AFEATS", "HISTORY", "REFRESH", "key", "none", "nil", "BOOK"):
+            if v.ty in ("TRACKS", "ANNOT", "GRAPH", "FEATURES", "AFEATS", "HISTORY", "REFRESH", "key", "none", "nil", "BOOK", "POSKEY", "REGISTRY", "ALLFEATS", "emptydict"):
                 e2.v[x] = v                      # aliases of parts of the state and constants: no code
                 return binds(pre) + go(e2)
             if v.ty not in COQTY: fail(s, "assignment of a value of type %s" % v.ty)
+            if v.ty == "attrs" and var_key(val):                               # a second name for a dict
+                gid = env.grp.get(var_key(val)) or fresh("g")
+                e2.grp[var_key(val)] = gid; e2.grp[x] = gid
             if isinstance(val, ast.Name) and v.ty in ELEM and not v.place:      # a second name for a local list
                 gid = env.grp.get(val.id) or fresh("g")
                 e2.grp[val.id] = gid; e2.grp[x] = gid
@@ -831,18 +1090,57 @@ def block(stmts, env, k, ctx):
                 message(c.args[0], env)
                 return go(env)
             fail(s, "warnings.warn")
+        if f.attr == "add" and isinstance(f.value, ast.Name) and f.value.id in env.v and env.v[f.value.id].ty == "setZ" and len(c.args) == 1 and not c.keywords:
+            a = ex(c.args[0], env, None)
+            if a.ty not in ("key", "Z"): fail(s, "set.add")
+            x = f.value.id
+            e2 = env.copy(); e2.v[x] = V(cname(x), "setZ")
+            return "let %s := %s ++ [%s] in\n" % (cname(x), env.v[x].coq, a.coq) + go(e2)
         recv = ex(f.value, env, None)
+        if recv.ty == "TRACKS" and f.attr == "set_pixels" and len(c.args) == 2 and not c.keywords:
+            pre = []
+            px = ex(c.args[0], env, pre); v = ex(c.args[1], env, pre)
+            if px.ty != "px" or v.ty != "Z" or pre: fail(s, "set_pixels arguments")
+            return "do _u, s <- set_pixels s %s %s;\n" % (px.coq, v.coq) + go(env)
+        if recv.ty == "GRAPH" and f.attr in ("add_node", "remove_node") and len(c.args) == 1 and not c.keywords:
+            nd = ex(c.args[0], env, None)
+            if nd.ty != "Z": fail(s, f.attr)
+            return ("let s := nx_add_node s %s in\n" if f.attr == "add_node" else "do _u, s <- nx_remove_node s %s;\n") % nd.coq + go(env)
+        if recv.ty == "GRAPH" and f.attr == "add_edge" and len(c.args) == 2 and len(c.keywords) == 1 and c.keywords[0].arg is None:
+            a = ex(c.args[0], env, None); b = ex(c.args[1], env, None); d = ex(c.keywords[0].value, env, None)
+            if a.ty != "Z" or b.ty != "Z" or d.ty != "attrs": fail(s, "add_edge arguments")
+            return "let s := nx_add_edge s %s %s %s in\n" % (a.coq, b.coq, d.coq) + go(env)
+        if recv.ty == "GRAPH" and f.attr == "remove_edge" and len(c.args) == 1 and isinstance(c.args[0], ast.Starred) and not c.keywords:
+            e = ex(c.args[0].value, env, None)
+            if e.ty != "pairZZ": fail(s, "remove_edge arguments")
+            return "do _u, s <- nx_remove_edge s (fst %s) (snd %s);\n" % (e.coq, e.coq) + go(env)
+        if recv.ty == "NODEDICT" and f.attr == "pop" and len(c.args) == 2 and is_none(c.args[1]) and not c.keywords:
+            kv = ex(c.args[0], env, None)
+            if kv.ty not in ("key", "Z"): fail(s, "pop")
+            return "do _u, s <- py_pop_node_attr s %s %s;\n" % (recv.coq, kv.coq) + go(env)
         if recv.ty == "REFRESH" and f.attr == "emit" and not c.args and not c.keywords:
             return "let s := emit s None in\n" + go(env)
         if recv.ty == "TRACKS" and f.attr == "_set_node_attr" and len(c.args) == 3 and not c.keywords:
             pre = []
             nd = ex(c.args[0], env, pre); kk = ex(c.args[1], env, pre); v = ex(c.args[2], env, pre)
-            if nd.ty != "Z" or kk.ty != "key" or any(e for (_, _, e) in pre): fail(s, "_set_node_attr arguments")
+            if nd.ty != "Z" or kk.ty not in ("key", "Z") or any(e for (_, _, e) in pre): fail(s, "_set_node_attr arguments")
             if v.ty == "Z": val = "(VZ %s)" % v.coq
+            elif v.ty == "value": val = v.coq
+            elif v.ty == "optvalue": val = "(val_of_opt %s)" % v.coq
             elif v.ty in ("optZ", "none"): val = "(val_of_optz %s)" % coerce(s, v, "optZ")
             else: fail(s, "_set_node_attr of a %s" % v.ty)
             return binds(pre) + "do _u, s <- py_set_node_attr s %s %s %s;\n" % (nd.coq, kk.coq, val) + go(env)
-        if recv.ty in ("TRACKS", "ANNOT", "HISTORY"):      # a call for its effect
+        if recv.ty == "TRACKS" and f.attr == "notify_annotators" and len(c.args) == 1 and not c.keywords:
+            a = ex(c.args[0], env, None)
+            if a.ty != "SELFACT": fail(s, "notify_annotators of something that is not self")
+            sig = CUR["sigs"].get("gen_track_annotator_update")
+            if sig is None: fail(s, "TrackAnnotator.update is not translated")
+            if sig[2]: CUR["fuel"] = True
+            b = action_value(s, a, env)
+            e2 = env.copy(); e2.kill_places()
+            return ("do _u, s <- py_regionprops_update s %s;\ndo _u, s <- py_edge_update s %s;\ndo _u, s <- %s%s s %s;\n"
+                    % (b, b, sig[3], " fuel" if sig[2] else "", b)) + go(e2)
+        if recv.ty in ("TRACKS", "ANNOT", "HISTORY", "SELFACT"):      # a call for its effect
             pre = []
             v = ex(c, env, pre, top=True)
             if not (pre and pre[-1][2] and pre[-1][0] == v.coq): fail(s, "expression statement without effect")
@@ -896,9 +1194,12 @@ def loop(s, rest, env, k, ctx):
     else:
         itv = finish(s, ex(it, env, ipre, top=True), ipre)
         if itv.ty == "nil": itv = V("(@nil Z)", "listZ")
+        if itv.ty == "pairZZ": itv = V("[fst %s; snd %s]" % (itv.coq, itv.coq), "listZ")
+        if itv.ty == "attrs": itv = V("(keys %s)" % itv.coq, "listZ")             # iterating a dict: its keys
     if itv.ty not in ELEM: fail(s, "loop over %s" % itv.ty)
     if any(e for (_, _, e) in ipre): fail(s, "call that may change the state as a loop iterable")
-    if isinstance(it, ast.Name) and it.id in body_assigned: fail(s, "the loop changes the list it iterates over")
+    if var_key(it) and var_key(it) in body_assigned: fail(s, "the loop changes what it iterates over")
+    if isinstance(it, ast.Call) and isinstance(it.func, ast.Attribute) and var_key(it.func.value) in body_assigned: fail(s, "the loop changes what it iterates over")
     x = fresh("x"); head = ""
     if enum is not None:
         if not (isinstance(s.target, ast.Tuple) and len(s.target.elts) == 2 and all(isinstance(e, ast.Name) for e in s.target.elts)): fail(s, "enumerate target")
@@ -909,6 +1210,10 @@ def loop(s, rest, env, k, ctx):
     elif isinstance(s.target, ast.Name) and itv.ty == "listZ":
         x = cname(s.target.id)
         tvars = {s.target.id: V(x, "Z")}
+    elif itv.ty == "listKV" and isinstance(s.target, ast.Tuple) and len(s.target.elts) == 2 and all(isinstance(e, ast.Name) for e in s.target.elts):
+        ka, vb = (e.id for e in s.target.elts)
+        head = "let '(%s, %s) := %s in\n" % (cname(ka), cname(vb), x)
+        tvars = {ka: V(cname(ka), "Z"), vb: V(cname(vb), "value")}
     else: fail(s, "loop target")
     carried = [v for v in carried if v not in tvars]
     brk = has_break(s.body)
@@ -944,6 +1249,12 @@ def _wrap(leaf, tag):
 
 
 # --------------------------------------------------------------------------- functions
+def default_text(p, d, ty):
+    if is_none(d) and ty in ("optZ", "optpx", "optattrs"): return "None"
+    if isinstance(d, ast.Constant) and type(d.value) is bool and ty == "bool": return "true" if d.value else "false"
+    fail(p, "default value")
+
+
 def translate_function(rel, cls_name, meth, gen):
     tree, src, path = tree_of(rel)
     CUR["file"] = path; CUR["n"] = 0; CUR["fuel"] = False
@@ -951,21 +1262,38 @@ def translate_function(rel, cls_name, meth, gen):
     if fn is None: raise Unsupported("%s: method %s.%s not found" % (path, cls_name, meth))
     if fn.decorator_list: fail(fn, "decorated method")
     a = fn.args
-    if a.vararg or a.kwarg or a.kwonlyargs or a.posonlyargs or a.defaults or not a.args or a.args[0].arg != "self": fail(fn, "signature")
+    if a.vararg or a.kwarg or a.kwonlyargs or a.posonlyargs or not a.args or a.args[0].arg != "self": fail(fn, "signature")
     kind = KIND[cls_name]
-    env = Env({"self": V("", kind)})
+    env = Env({"self": V("", "SELFACT" if kind == "ACT" else kind, arg=cls_name)})
     params = []; sig = []
-    for p in a.args[1:]:
+    ndef = len(a.defaults)
+    if a.defaults and not (kind == "ACT" and meth == "__init__"): fail(fn, "default values")
+    for i, p in enumerate(a.args[1:]):
         an = ast.unparse(p.annotation) if p.annotation else None
+        j = i + 1 - (len(a.args) - ndef)
         if an in ACTION_FIELDS:
+            if j >= 0: fail(p, "default value")
             env.v[p.arg] = V(cname(p.arg), "ACTION", arg=an)
-            for f, ty in ACTION_FIELDS[an]:
-                params.append(("%s_%s" % (cname(p.arg), f), COQTY[ty])); sig.append((f, ty))
+            for f, ty in ACTION_FIELDS[an]: params.append(("%s_%s" % (cname(p.arg), f), COQTY[ty]))
+            sig.append((p.arg, "ACTION:" + an, None))
             continue
         ty = ANNOT_TY.get(an) if an is not None else UNANNOTATED.get(p.arg)
         if ty is None: fail(p, "parameter annotation")
+        if ty == "TRACKS":
+            if not (kind == "ACT" and meth == "__init__" and i == 0 and p.arg == "tracks"): fail(p, "tracks parameter")
+            env.v[p.arg] = V("", "TRACKS")
+            continue
         env.v[p.arg] = V(cname(p.arg), ty)
-        params.append((cname(p.arg), COQTY[ty])); sig.append((p.arg, ty))
+        params.append((cname(p.arg), COQTY[ty])); sig.append((p.arg, ty, default_text(p, a.defaults[j], ty) if j >= 0 else None))
+    if kind == "ACT":
+        if meth == "__init__":
+            if "tracks" not in env.v: fail(fn, "constructor without tracks")
+        elif meth in ("_apply", "inverse") and len(a.args) == 1:
+            env.v["self.tracks"] = V("", "TRACKS")
+            for f, ty in ACTION_FIELDS[cls_name]:
+                env.v["self." + f] = V("v_self_" + f, ty)
+                params.append(("v_self_" + f, COQTY[ty]))
+        else: fail(fn, "method of an action class")
     for st in ast.walk(fn):
         if isinstance(st, (ast.FunctionDef, ast.AsyncFunctionDef, ast.ClassDef, ast.Global, ast.Nonlocal, ast.With, ast.Try, ast.Continue,
                            ast.Yield, ast.YieldFrom, ast.Await, ast.NamedExpr, ast.Import, ast.ImportFrom)) and st is not fn:
@@ -977,8 +1305,17 @@ def translate_function(rel, cls_name, meth, gen):
     def kret(node, e, v, pre):
         i = len(rets); rets.append((node, v))
         return binds(pre) + "Ok <<RET%d>> s" % i
+
+    def kend(e):
+        if kind == "ACT" and meth == "__init__":      # the constructed action: the `basic` value of its fields
+            return kret(fn, e, V(action_value(fn, e.v["self"], e), "basic"), [])
+        return kret(fn, e, V("tt", "unit"), [])
     body = [s for s in fn.body if not is_docstring(s)]
-    txt = block(body, env, lambda e: kret(fn, e, V("tt", "unit"), []), Ctx(kret))
+    if kind == "ACT" and meth == "__init__":
+        if not (body and isinstance(body[0], ast.Expr) and ast.unparse(body[0].value) == "super().__init__(tracks)"): fail(fn, "first statement must be super().__init__(tracks)")
+        txt = block(body, env, kend, Ctx(None))
+    else:
+        txt = block(body, env, kend, Ctx(kret))
     rty = None
     for node, v in rets: rty = v.ty if rty is None else unify(node, rty, v.ty)
     if rty == "none": rty = "unit"
